@@ -17,7 +17,10 @@
       well-formed, the hunk is not empty, every index in its path is a natural number below `M`, and
       the hunk is EITHER a plain replacement (no context line, at most one removed value) OR a list
       hunk at `pp ++ [idx s]` with exactly one before- and one after-context
-      line, both well-formed, and `s + |remove| < M`. In particular no hunk is at index −1.
+      line, both well-formed, and `s + |remove| < M`, OR (third shape, `Jd.subAfter`: a typed
+      `jsonList` element replaced wholesale by a plain `jsonArray` with nothing accumulated, as the
+      end block of Go's `diffRest` does) a replacement at `pp ++ [idx s]` with NO before-context and
+      one well-formed after-context line. In particular no hunk is at index −1.
    2. `diffM_hunks_ok` (and `diffM_hunks_ok_N` with a single bound): for `Na + Nb < 2^53`,
         ∀ h ∈ diffM o a b, HunkOK h ∧ HunkRange h.
    3. `diffM_paths_expressible`: if every object key of `a` and of `b` is expressible
@@ -252,8 +255,10 @@ theorem DL.headD_wf {N : Nat} {xs : List Json} (h : DL N xs) : (xs.headD .void).
 
 /-- what every hunk of a list-mode diff looks like (`M` bounds the indices): values are real and
     well-formed, the hunk is not empty, indices are non-negative and below `M`, and the hunk is either
-    a plain replacement (no context, at most one value removed) or a list hunk `pp ++ [idx s]` with
-    one line of before- and of after-context -/
+    a plain replacement (no context, at most one value removed), or a list hunk `pp ++ [idx s]` with
+    one line of before- and of after-context, or (third shape: `subAfter`, the wholesale replacement
+    of a typed `jsonList` element by a plain `jsonArray` when nothing was accumulated) a replacement
+    of the element at `pp ++ [idx s]` with NO before-context and one line of after-context -/
 structure Gen (M : Nat) (h : Hunk) : Prop where
   remNoVoid : noVoid h.remove
   addNoVoid : noVoid h.add
@@ -264,7 +269,10 @@ structure Gen (M : Nat) (h : Hunk) : Prop where
             ∀ i, lastIdx? h.path = some i → i + 1 < (M : Int)) ∨
           (∃ (pp : Path) (s : Nat) (prev after : Json), h.path = pp ++ [.idx (s : Int)] ∧
             h.before = [prev] ∧ h.after = [after] ∧ prev.wf = true ∧ after.wf = true ∧
-            s + h.remove.length < M)
+            s + h.remove.length < M) ∨
+          (∃ (pp : Path) (s : Nat) (after : Json), h.path = pp ++ [.idx (s : Int)] ∧
+            h.before = [] ∧ h.after = [after] ∧ after.wf = true ∧ h.remove.length ≤ 1 ∧
+            s + 1 < M)
 
 theorem lastIdx_mem {p : Path} {i : Int} (h : lastIdx? p = some i) : PathElem.idx i ∈ p := by
   unfold lastIdx? at h
@@ -297,12 +305,15 @@ theorem Gen.hunkOK {M : Nat} {h : Hunk} (g : Gen M h) : HunkOK h where
   remNoVoid := g.remNoVoid
   addNoVoid := g.addNoVoid
   wfBefore := by
-    rcases g.shape with ⟨h1, _⟩ | ⟨pp, s, prev, after, _, h1, _, hw, _⟩
+    rcases g.shape with ⟨h1, _⟩ | ⟨pp, s, prev, after, _, h1, _, hw, _⟩ | ⟨pp, s, after, _, h1, _⟩
     · rw [h1]; rfl
     · rw [h1]; simp [wfList, hw]
-  wfAfter := by
-    rcases g.shape with ⟨_, h1, _⟩ | ⟨pp, s, prev, after, _, _, h1, _, hw, _⟩
     · rw [h1]; rfl
+  wfAfter := by
+    rcases g.shape with ⟨_, h1, _⟩ | ⟨pp, s, prev, after, _, _, h1, _, hw, _⟩ |
+      ⟨pp, s, after, _, _, h1, hw, _⟩
+    · rw [h1]; rfl
+    · rw [h1]; simp [wfList, hw]
     · rw [h1]; simp [wfList, hw]
   wfAdd := g.wfAdd
   append := by
@@ -318,8 +329,12 @@ theorem Gen.hunkRange {M : Nat} {h : Hunk} (g : Gen M h) (hM : M ≤ 2 ^ 53) : H
   ctx := by
     intro i hi
     have h0 := g.pathIdx i (lastIdx_mem hi)
-    rcases g.shape with ⟨_, _, h3, h4⟩ | ⟨pp, s, prev, after, hp, _, _, _, _, hs⟩
+    rcases g.shape with ⟨_, _, h3, h4⟩ | ⟨pp, s, prev, after, hp, _, _, _, _, hs⟩ |
+      ⟨pp, s, after, hp, _, _, _, h3, hs⟩
     · have := h4 i hi
+      omega
+    · rw [hp, lastIdx_concat_idx] at hi
+      injection hi with hi
       omega
     · rw [hp, lastIdx_concat_idx] at hi
       injection hi with hi
@@ -338,7 +353,8 @@ theorem gen_accHunk {M N N' : Nat} {p : Path} {s : Nat} {prev after : Json} {R A
   · rename_i hne
     simp only [List.mem_singleton] at hm
     subst hm
-    refine ⟨hR.noVoid, hA.noVoid, hA.wf, by simpa using hne, ?_, .inr ⟨p, s, prev, after, rfl, rfl, rfl, hprev, hafter, hs⟩⟩
+    refine ⟨hR.noVoid, hA.noVoid, hA.wf, by simpa using hne, ?_,
+      .inr (.inl ⟨p, s, prev, after, rfl, rfl, rfl, hprev, hafter, hs⟩)⟩
     intro i hi
     simp only [List.mem_append, List.mem_singleton] at hi
     rcases hi with hi | hi
@@ -523,7 +539,7 @@ theorem diff_gen (o : Opts) (ho : dispatchTag o = .list) :
     simp only [List.length_cons] at hRa
     exact ih da' db (dR.append (DL.single dx hx)) dA hprev hsk hkb (by simp; omega) p hp h hm
   · -- two containers of the same type: sub-diff below the index
-    intro k s prev c R A x a' y b' _ _ hA hB hs ihN ihR da db dR dA hprev hsk hkb hRa p hp h hm
+    intro k s prev c R A x a' y b' hlx hly hA hB hs ihN ihR da db dR dA hprev hsk hkb hRa p hp h hm
     rw [diffRest_cons] at hm
     simp only [hA, hB, hs, Bool.false_and, Bool.false_eq_true, if_false, if_true] at hm
     obtain ⟨⟨dx, hx⟩, da'⟩ := dl_cons.1 da
@@ -535,7 +551,19 @@ theorem diff_gen (o : Opts) (ho : dispatchTag o = .list) :
         split
         · exact da'.headD_wf
         · exact dx.wf
-      · exact ihN dx dy (by simp [hy]) _ (hp.idx (by omega)) h hm
+      · simp only [listDocList, Bool.and_eq_true] at hlx hly
+        rcases subAfter_diffNode_cases o ho hlx.1 hly.1 hs p (k : Int) (R.isEmpty && A.isEmpty)
+          (a'.headD .void) with e | ⟨_, xs, ys, rfl, rfl, _, e⟩
+        · rw [e] at hm
+          exact ihN dx dy (by simp [hy]) _ (hp.idx (by omega)) h hm
+        · rw [e] at hm
+          simp only [List.mem_singleton] at hm
+          subst hm
+          have hpk := hp.idx (M := Na + Nb + 1) (k := k) (by omega)
+          refine ⟨noVoid_single rfl, noVoid_single rfl, by simp [wfList, dy.wf], by simp,
+            fun i hi => ?_, .inr (.inr ⟨p, k, a'.headD .void, rfl, rfl, rfl, da'.headD_wf,
+              by simp, by omega⟩)⟩
+          have := hpk i hi; omega
     · exact ihR da' db' (DL.nil _) (DL.nil _) dy.wf (Nat.le_refl _) (by omega) (by simp; omega) p hp h hm
   · -- two unrelated elements: one removed, one added
     intro k s prev c R A x a' y b' _ _ hA hB hs ih da db dR dA hprev hsk hkb hRa p hp h hm
@@ -660,7 +688,9 @@ theorem diff_paths_expressible (o : Opts) (ho : dispatchTag o = .list) :
     rcases List.mem_append.1 hm with hm | hm
     · rcases List.mem_append.1 hm with hm | hm
       · rw [(Real.accHunk_path hm).1]; exact hp.idx _
-      · exact ihN ka.1 kb.1 _ (hp.idx _) h hm
+      · obtain ⟨h0, hm0, hp0, _⟩ := mem_subAfter' hm
+        rw [hp0]
+        exact ihN ka.1 kb.1 _ (hp.idx _) h0 hm0
     · exact ihR ka.2 kb.2 p hp h hm
   · intro k s prev c R A x a' y b' _ _ hA hB hs ih ka kb p hp h hm
     rw [diffRest_cons] at hm
@@ -776,7 +806,8 @@ theorem render_gen_ok {M : Nat} {h : Hunk} (g : Gen M h) (he : PE h.path) :
   unfold renderPatchHunk'
   rw [hs]
   simp only [Outcome.bind_ok, g.nonEmpty, Bool.false_eq_true, if_false]
-  rcases g.shape with ⟨h1, h2, _, _⟩ | ⟨pp, s', prev, after, hp, h1, h2, _, _, _⟩
+  rcases g.shape with ⟨h1, h2, _, _⟩ | ⟨pp, s', prev, after, hp, h1, h2, _, _, _⟩ |
+    ⟨pp, s', after, hp, h1, h2, _⟩
   · rw [h1, h2]
     simp only [ctxOps, List.length_nil, Nat.not_lt_zero, gt_iff_lt, if_false, Outcome.bind_ok]
     exact ⟨_, rfl⟩
@@ -785,6 +816,13 @@ theorem render_gen_ok {M : Nat} {h : Hunk} (g : Gen M h) (he : PE h.path) :
     obtain ⟨ao, hao⟩ := ctxOps_single_ok hp hpp after (fun i => i + (h.remove.length : Int))
     rw [h1, h2, hbo, hao]
     simp only [List.length_singleton, gt_iff_lt, Nat.lt_irrefl, if_false, Outcome.bind_ok]
+    exact ⟨_, rfl⟩
+  · have hpp : PE pp := by rw [hp] at he; exact he.of_append
+    obtain ⟨ao, hao⟩ := ctxOps_single_ok hp hpp after (fun i => i + (h.remove.length : Int))
+    have hbo : ctxOps h [] (fun i => i - 1) = .ok [] := rfl
+    rw [h1, h2, hbo, hao]
+    simp only [List.length_nil, List.length_singleton, gt_iff_lt, Nat.not_lt_zero, Nat.lt_irrefl,
+      if_false, Outcome.bind_ok]
     exact ⟨_, rfl⟩
 
 /-! ### a whole diff -/
